@@ -14,7 +14,7 @@ MODEL_PLAN = {
     "C02": [("nest2", 2, 840, 6, 1, True, ["M_Nesting", "M_ResultRegion", "M_NoPanic"]), ("nest", 3, 1, 60, 4, True, ["M_Nesting", "M_NoPanic"]),
             ("star3", 2, 840, 30, 2, True, ["M_Nesting", "M_ResultRegion", "M_Provenance", "M_NoPanic"])],   # three rings through one least vertex, also as holes
     "C03": [("quad", 2, 840, 120, 8, True, ["M_EventBound", "M_NoPanic"]), ("pairB", 2, 840, 3000, 300, True, ["M_EventBound", "M_NoPanic"])],
-    "C04": [("quad", 2, 840, 150, 12, True, ["M_Provenance", "M_NoPanic"])],
+    "C04": [("quad", 2, 840, 150, 12, True, ["M_Provenance", "M_NoPanic"]), ("isl2", 2, 840, 16, 2, True, ["M_Provenance", "M_Nesting"])],   # islands inside a hole: ring orientation at depth 2
     "C09": [("tri", 2, 840, 40, 3, False, ["M_ResultRegion", "M_NoPanic"]), ("nest2", 2, 840, 12, 2, False, ["M_ResultRegion", "M_Nesting"])],
 }
 
@@ -47,6 +47,7 @@ def plan(prop, tier):
                   ops("single", ALLF, 480 if q else 4000, 3 if q else 4, 120 if q else 160),
                   ops("single", "lat,frames,lat,fan,tfan", 600 if q else 6000, 3, 120),   # general slopes, boxes overlapping only a little, thinnest wedges
                   ops("single", "pinch,holefill,onion,teeth,pinch,lamina", 600 if q else 6000, 3, 120),   # many rings through one vertex (also as a T-touch on the edge below), nested operands, interlocking operands
+                  ("fixedops", "witness", "latraw", 2000 if q else 12000, 3, 120, 20260926),   # general position, inexact crossings: judged at witness points (C01_Witness); fixed set, see finding N8
                   ops("single", "bigfan23,bigsliver25,bigfan25,bigsliver20", 200 if q else 2000, 3, 120),   # beyond 2^12 (differences <= 2^25, see DESIGN N5): touch-only operands, arithmetic-free laws
                   tri(2, 840, 3 if q else 1, 0)] + ([] if q else [ops("single", EXACT, 600, 6, 260)]))],
         "C02": [("nesting", {"C02"}, "any", "release",
@@ -121,7 +122,14 @@ def record_step(prop, step_idx, label, profile, batches, seed, workdir):
     sid0 = 1
     for bi, b in enumerate(batches):
         bseed = (seed * 7919 + step_idx * 101 + bi * 13 + sum(map(ord, prop))) % (1 << 31)
-        if b[0] == "ops":
+        if b[0] == "fixedops":
+            # a FIXED set of generated sessions (its seed does not depend on VERIF_SEED): where the
+            # unchanged library is known to fail on some members, the members are listed by input hash
+            _, kind, fams, count, kmax, max_edges, fseed = b
+            vlib.vh(["rec-ops", "--kind", kind, "--family", fams, "--count", count, "--seed", fseed, "--kmax", kmax,
+                     "--max-edges", max_edges, "--sid0", sid0], path, profile=profile, append=True)
+            sid0 += count
+        elif b[0] == "ops":
             _, kind, fams, count, kmax, max_edges = b
             vlib.vh(["rec-ops", "--kind", kind, "--family", fams, "--count", count, "--seed", bseed, "--kmax", kmax,
                      "--max-edges", max_edges, "--sid0", sid0], path, profile=profile, append=True)
